@@ -480,16 +480,13 @@ func dischargeAll(obls []*Obl, timeoutMs int) {
 				// an undecided query is retried once with a longer time limit (a timing-dependent
 				// "unknown" on a loaded machine must not become an alarm); the query text differs
 				// only by a comment so that the result cache is bypassed
-				r3 := solve(o.query+"; retry\n", timeoutMs*4, true)
+				r3 := solveRetry(o.query, timeoutMs*4)
 				r3.Secs += r.Secs
 				if r3.Status != "unknown" {
-					if r3.Backend != "" {
-						r3.Backend += "+retry"
-					}
 					r = r3
 				} else {
 					for k, v := range r3.Detail {
-						r.Detail[k+" (retry x4)"] = v
+						r.Detail[k] = v
 					}
 					r.Secs = r3.Secs
 				}
